@@ -467,6 +467,44 @@ def attrsyntax_shard(arg):
     return p
 
 
+# ------------------------------------------------------------------ subscripts and slices of CONSTANT subjects under a consumer
+
+def _constsub():
+    I, S = G.Int, G.Str
+    subjects = [I(0), G.NONE, G.TRUE, G.Float(1.5), S("ab"), G.List(I(1), I(2)), G.Tuple(), G.Dict((S("a"), I(1))), G.Name("x"),
+                G.Name("u")]
+    subs = [f for f in G.FORMS if f.klass == "slice" and f.arity == 1] + [
+        G.FORM_BY_NAME[n] for n in ("item:0", "item:5", "item:-1", "item:k", "iitem:0", "attr:k")]
+    wraps = [
+        ("id", lambda e: e), ("==1", lambda e: G.Cmp(e, ("==", I(1)))), ("in", lambda e: G.Cmp(I(1), ("in", G.List(e)))),
+        ("~", lambda e: G.Bin("~", e, S("!"))), ("and", lambda e: G.And(I(1), e)), ("or", lambda e: G.Or(e, I(2))),
+        ("not", lambda e: G.Not(e)), ("defined", lambda e: G.Test(e, "defined")), ("|default", lambda e: G.Filter(e, "default", (S("z"),))),
+        ("|length", lambda e: G.Filter(e, "length")), ("if", lambda e: G.Cond(G.TRUE, e, I(0))), ("[e]", lambda e: G.List(e)),
+        ("+", lambda e: G.Bin("+", e, e)), ("slice", lambda e: G.Slice(e, None, I(1), None)),
+    ]
+    return subjects, subs, wraps
+
+
+CONSTSUB = _constsub()
+
+
+def constsub_shard(si):
+    """`c[i:j]`, `c[0]`, `c.0`, `c["k"]`, `c.k` on constant subjects of every type (subscriptable or not), bare and under
+    one consumer that can absorb an undefined, in all four environments (catches folding that disagrees with run time)."""
+    p = core.Part()
+    subjects, subs, wraps = CONSTSUB
+    subj = subjects[si]
+    for f in subs:
+        for wname, w in wraps:
+            ast = w(f.build(subj))
+            src = G.to_src(ast)
+            for kind in ENVS:
+                check_case(p, "constsub", f.name, ast, src, kind, (0, 2))
+            p.count("constsub_sources")
+            p.sample({"expr": src}, cap=1)
+    return p
+
+
 # ------------------------------------------------------------------ async compile_expression
 
 ASYNC_CE_PROBES = [G.Bin("+", G.Int(1), G.Name("x")), G.Name("u"), G.Attr(G.Name("o"), "k"), G.Filter(G.Name("y"), "length"),
@@ -536,6 +574,8 @@ def run(ctx: core.Ctx):
     _phase("flat")
     ctx.pmap(attrsyntax_shard, [(quick, i) for i in range(len(ATTRSYNTAX[0]))])
     _phase("attrsyntax")
+    ctx.pmap(constsub_shard, list(range(len(CONSTSUB[0]))))
+    _phase("constsub")
     # (b) depth 1
     d1 = [(quick, i) for i in range(len(G.FORMS))]
     if os.environ.get("VERIF_SMOKE"):
@@ -568,6 +608,7 @@ def run(ctx: core.Ctx):
         + ("9 operators" if quick else "18 operators"),
         "attrsyntax": {"targets": len(ATTRSYNTAX[0]), "names": len(ATTRSYNTAX[1]), "access_forms": len(ATTRSYNTAX[2]),
                        "consumers": len(ATTRSYNTAX[3])},
+        "constsub": {"subjects": len(CONSTSUB[0]), "subscript_forms": len(CONSTSUB[1]), "consumers": len(CONSTSUB[2])},
         "forms": len(G.FORMS), "atoms": len(G.ATOMS), "atoms_for_arity3": len(G.ATOMS_SMALL),
         "data_assignments": G.N_DATA, "environments": list(ENVS), "environment_mode": "rotating" if quick else "all four "
         "(rotating on the largest shape spaces)", "shape_spaces": bounds,
